@@ -1175,6 +1175,10 @@ static void struct_initializer1(Token **rest, Token *tok, Initializer *init) {
       continue;
     }
 
+    // Unnamed bit-fields do not participate in initialization.
+    while (mem && mem->is_bitfield && !mem->name)
+      mem = mem->next;
+
     if (mem) {
       initializer2(&tok, tok, init->children[mem->idx]);
       mem = mem->next;
@@ -1189,6 +1193,10 @@ static void struct_initializer2(Token **rest, Token *tok, Initializer *init, Mem
   bool first = true;
 
   for (; mem && !is_end(tok); mem = mem->next) {
+    // Unnamed bit-fields do not participate in initialization.
+    if (mem->is_bitfield && !mem->name)
+      continue;
+
     Token *start = tok;
 
     if (!first)
